@@ -24,16 +24,10 @@ type UKey struct {
 }
 
 func (k UKey) Layer(bf uint) uint8 { return k.L }
-func (k UKey) Order(o mast.Key) int {
-	ok := o.(UKey)
-	switch {
-	case k.ID < ok.ID:
-		return -1
-	case k.ID > ok.ID:
-		return 1
-	}
-	return 0
-}
+// Order returns the difference of the IDs (negative / zero / positive, like the
+// repository's own test key type), not just -1/0/1: code that tests for == -1
+// instead of < 0 must not get away with it. IDs are small, no overflow.
+func (k UKey) Order(o mast.Key) int { return k.ID - o.(UKey).ID }
 
 // SKey is a plain struct key: ordered by its marshaled bytes, layer from the
 // CRC of the marshaled bytes (mast's default for unknown types).
